@@ -13,7 +13,9 @@ from harness.framework import Suite
 
 PID = "C20"
 TRANSLATE = True
-LEAN_MODS = ["SwcVerif.Props.C20"]
+TRANSLATE_ALGO = ["AlgoTraverse", "AlgoTravFront", "AlgoRaster"]   # harness/algo_specs/18_raster.py: image_stack.py::_tp3f, ToImageStack._get_samplers / _get_scene (+ leave) / transform
+DRIVER_FILES = ["SwcVerif/Model/AlgoRunRaster.lean", "SwcVerif/Model/PyRaster.lean"]
+LEAN_MODS = ["SwcVerif.Props.C20", "SwcVerif.Props.C20Gen"]
 THEOREMS = [
     "C20.consts_pinned", "C20.save_puts_z_first", "C20.axes_roundtrip", "C20.axes_roundtrip_3d", "C20.unknown_axis", "C20.rescale_table",
     "C20.uint_float_uint", "C20.float_uint_float", "C20.grid_covers", "C20.bbox_contains", "C20.swept_ends",
@@ -660,12 +662,13 @@ class Raster(Suite):
             return self.run_seq(case)
         t = gen.make_tree(case["tree"])
         # record which solid the scene builder creates for each edge (wrapping the constructors it looks up in its own module)
-        solids = []
-        saved = {k: getattr(mod, k) for k in ("Sphere", "RoundCone") if hasattr(mod, k)}
+        solids, samplers = [], []
+        saved = {k: getattr(mod, k) for k in ("Sphere", "RoundCone", "RangeSampler") if hasattr(mod, k)}
 
         def wrap(kind, ctor):
             def make(*a):
-                solids.append([kind] + [[float(v) for v in x] if isinstance(x, (tuple, list)) else float(x) for x in a])
+                (samplers if kind == "RangeSampler" else solids).append(
+                    [kind] + [[float(v) for v in x] if isinstance(x, (tuple, list)) else float(x) for x in a])
                 return ctor(*a)
             return make
 
@@ -676,7 +679,7 @@ class Raster(Suite):
         finally:
             for k, ctor in saved.items():
                 setattr(mod, k, ctor)
-        res = {"shape": list(img.shape), "lit": np.argwhere(img > 0).tolist(), "values": sorted(set(int(v) for v in np.unique(img))), "solids": solids}
+        res = {"shape": list(img.shape), "lit": np.argwhere(img > 0).tolist(), "values": sorted(set(int(v) for v in np.unique(img))), "solids": solids, "samplers": samplers}
         if img.size and case["tree"]["n"] % 2 == 0:
             # the same raster written slice by slice to a TIFF and read back through the image-stack reader: (Z, X, Y) ↔ (X, Y, Z, C)
             # (a raster of ONE z plane is written as a single 2-D page which read_imgs refuses: known finding `raster-file-single-plane-raises`)
@@ -730,7 +733,58 @@ class Raster(Suite):
             centres = [float(lo[ax]) + rs[ax] / 2 + i * rs[ax] for i in range(n_expected)]
             out.append((f"imggrid lo={Fraction(float(lo[ax]))} hi={Fraction(float(hi[ax]))} res={Fraction(rs[ax])}",
                         ",".join(str(Fraction(c)) for c in centres)))
-        return out + edge_lines
+        return out + edge_lines + self.gen_lines(t, rs, xyz, r, res)
+
+    def gen_lines(self, t, rs, xyz, r, res):
+        """the GENERATED `_get_scene` / `transform` / `_get_samplers` (Gen/AlgoRaster.lean, run at Rat on the float32 values the code sees) against the
+        constructor calls recorded in-process: the solids in the order they are added (exact), the samplers (box corners exact where the float32
+        bounding box is exact; slice positions up to the float32 accumulation of `z += stride[2]`)"""
+        F = lambda v: Fraction(float(v))
+        n = t["n"]
+        pids = t["pids"]
+        rr = r[:, 0]
+        # the distance handed to the comparison: what `np.linalg.norm(c.xyz() - n.xyz())` returns on the float32 rows
+        d = [F(0) if pids[c] < 0 else F(np.linalg.norm(xyz[c] - xyz[pids[c]])) for c in range(n)]
+        if any(pids[c] >= 0 and F(abs(rr[pids[c]] - rr[c])) != abs(F(rr[pids[c]]) - F(rr[c])) for c in range(n)):
+            return []                                   # a float32 radius difference that is not exact: the comparison is outside the exact model
+        col = lambda j: ",".join(str(F(xyz[i][j])) for i in range(n))
+        a = (f"pids={gen.ints(pids)} x={col(0)} y={col(1)} z={col(2)} r={','.join(str(F(v)) for v in rr)} d={','.join(str(v) for v in d)}")
+        out = []
+        if "solids" in res:
+            want = " | ".join(("ball " + ",".join(str(F(v)) for v in s[1] + [s[2]])) if s[0] == "Sphere"
+                              else ("cone " + ",".join(str(F(v)) for v in s[1] + s[2] + [s[3], s[4]])) for s in res["solids"])
+            out.append(("gscene " + a, want))
+        if res.get("samplers"):
+            rs32 = [np.float32(v) for v in rs]
+            exact_box = all(F(np.float32(xyz[i][j]) - rr[i]) == F(xyz[i][j]) - F(rr[i]) and F(np.float32(xyz[i][j]) + rr[i]) == F(xyz[i][j]) + F(rr[i])
+                            for i in range(n) for j in range(3))
+            smp = res["samplers"]
+            nsolid = len(res.get("solids", []))
+
+            def same(outp, smp=smp, exact_box=exact_box, nsolid=nsolid):
+                parts = outp.split(" # ")
+                if len(parts) != 3 or not exact_box:
+                    return len(parts) == 3 or not exact_box
+                got = [[[float(Fraction(x)) for x in tri.split(",")] for tri in s_.split(";")] for s_ in parts[1].split(" | ")] if parts[1] else []
+                if int(parts[0]) != len(smp) or len(got) != len(smp) or parts[2] != ",".join([str(nsolid)] * len(smp)):
+                    return False
+                return all(abs(g - w) <= 1e-4 * (1 + abs(w)) for gs, ws in zip(got, smp) for gt, wt in zip(gs, ws[1:]) for g, w in zip(gt, wt))
+            # a slice boundary within float32 accumulation error of the top of the box may fall either way: such cases are left out
+            lo = np.floor(np.min(xyz - r, axis=0)); hi = np.ceil(np.max(xyz + r, axis=0))
+            k = (float(hi[2]) - (float(lo[2]) + float(rs32[2]) / 2)) / float(rs32[2])
+            if abs(k - round(k)) > 1e-3:
+                out.append((f"graster {a} res={','.join(str(F(v)) for v in rs32)}", same))
+                want = " | ".join(";".join(",".join(str(F(x)) for x in tri) for tri in s_[1:]) for s_ in smp)
+                if all(F(v).denominator <= 16 for v in rs32):
+                    # dyadic resolution: every float operation of `_get_samplers` is exact, the samplers agree exactly (eps is the float 1e-6, the
+                    # model's the decimal 10^-6: the upper z corner is compared up to that rounding and the float32 rounding of the difference)
+                    def same_s(outp, smp=smp):
+                        got = [[[Fraction(x) for x in tri.split(",")] for tri in s_.split(";")] for s_ in outp.split(" | ")] if outp not in ("", "E") else []
+                        return len(got) == len(smp) and all(
+                            (g == F(w)) if not (a_ == 1 and b_ == 2) else abs(float(g) - w) <= 1e-6 * (1 + abs(w))
+                            for gs, ws in zip(got, smp) for a_, (gt, wt) in enumerate(zip(gs, ws[1:])) for b_, (g, w) in enumerate(zip(gt, wt)))
+                    out.append((f"gsamplers min={','.join(str(F(v)) for v in lo)} max={','.join(str(F(v)) for v in hi)} res={','.join(str(F(v)) for v in rs32)}", same_s))
+        return out
 
     def oracle(self, case, res):
         try:
